@@ -65,7 +65,7 @@ func probeOverlay(name, from string, patch map[string]string) GenSpec {
 
 // GenSet lists the configurations for a tier.
 func GenSet(tier string) []GenSpec {
-	wl := map[string]string{"exec.worker_limit": "2"}
+	wl := map[string]string{"exec.worker_limit": "1"} // the smallest positive limit: where an off-by-one in a `gt WorkerLimit n` guard shows
 	set := []GenSpec{
 		testserver("singlefile", "", nil),
 		testserver("followschema", "", nil),
